@@ -109,14 +109,33 @@ def _disjuncts(fn, nid):
     return [nid]
 
 
-def _lambda_return(fb, fn, lam_node):
-    g = fb.lambda_fn(fn, lam_node)
-    if g is None:
-        return None, None
+def _single_return(g):
     rets = [n for n in g.all_nodes() if n.get('k') == 'return' and 'sub' in n]
     if len(rets) != 1:
-        return g, None
-    return g, rets[0]['sub']
+        return None
+    return rets[0]['sub']
+
+
+def _lambda_return(fb, fn, lam_node):
+    """(function holding the predicate expression, expression id); a predicate that only forwards to a member function
+    (named predicate) is followed into that function."""
+    g = fb.lambda_fn(fn, lam_node)
+    if g is None:
+        return None, None, None
+    lam = g
+    pred = _single_return(g)
+    hops = 0
+    while pred is not None and hops < 3:
+        hops += 1
+        c = g.sn(pred)
+        if c is not None and c.get('k') == 'call' and c.get('u') and c.get('rcls') == Q and (g.sn(c.get('recv')) or {}).get('k') == 'this':
+            cands = [h for h in fb.by_usr.get(c['u'], []) if h.clsT == fn.clsT]
+            if len(cands) == 1 and _single_return(cands[0]) is not None:
+                g = cands[0]
+                pred = _single_return(g)
+                continue
+        break
+    return lam, g, pred
 
 
 def _wait_sites(fb, fn, F):
@@ -134,7 +153,8 @@ def _wait_sites(fb, fn, F):
                         lam = fn.nodes[x]
             g, pred = (None, None)
             if lam is not None:
-                g, pred = _lambda_return(fb, fn, lam)
+                g, predfn, pred = _lambda_return(fb, fn, lam)
+                c['_predfn'] = predfn
             out.append((c, cv, timed, lockd, g, pred))
     return out
 
@@ -188,17 +208,81 @@ def queue_rules(fb, R):
         if cons is None or prod is None or cons == prod:
             R.broken('%s: cannot determine consumer/producer condition variables from the wait predicates' % rec.full)
             return
+        locked = _locked_helpers(fb, fns, F)
         for fn in fns:
-            _queue_method(fb, R, fn, F, cons, prod)
-        _queue_shapes(fb, R, rec, fns, F, cons, prod)
+            _queue_method(fb, R, fn, F, cons, prod, assume_locked=(fn.usr in locked), locked_usrs=frozenset(locked))
+        # shape rules run on a normal form in which private helpers called on `this` are inlined into their callers
+        # (an extracted `take_front(value)` is part of wait_and_pop/try_pop); the helpers themselves are not entry points
+        from ..c09_util import normalized
+        nfns = []
+        for fn in fns:
+            if fn.usr in locked:
+                continue
+            try:
+                nfns.append(normalized(fb, fn))
+            except Exception:  # noqa: BLE001 - fall back to the body as written
+                nfns.append(fn)
+        _queue_shapes(fb, R, rec, nfns, F, cons, prod)
 
 
-def _queue_method(fb, R, fn, F, cons, prod):
+def _held_fn(fn, F):
+    before, lockvars = lockset(fn, {F['mutex']})
+
+    def held(nid):
+        st = before.get(nid)
+        if st is None:
+            pm = fn.parent_map()
+            x = nid
+            while x in pm and x not in before:
+                x = pm[x]
+            st = before.get(x, frozenset())
+        return bool(st)
+    return held, before
+
+
+def _locked_helpers(fb, fns, F):
+    """Non-public methods of the queue class whose every call site (in the class, including wait-predicate lambdas on a held
+    lock) is inside a region where the mutex is held: their bodies run under the caller's lock."""
+    by_usr = {f.usr: f for f in fns}
+    cand = {f.usr for f in fns if f.access in ('private', 'protected') and f.kind == 'method'}
+    changed = True
+    locked = set(cand)
+    while changed:
+        changed = False
+        for u in list(locked):
+            sites = 0
+            ok = True
+            for caller in fns:
+                held, before = _held_fn(caller, F)
+                bodies = [(caller, held, caller.usr in locked)]
+                waits = {id(g): (c, lockd) for (c, cv, timed, lockd, g, pred) in _wait_sites(fb, caller, F) if g is not None}
+                for g in fb.lambdas_in(caller):
+                    w = waits.get(id(g))
+                    inlock = False
+                    if w is not None:
+                        c, lockd = w
+                        inlock = lockd is not None and lockd in before.get(c['id'], frozenset())
+                    bodies.append((g, (lambda nid, v=inlock: v), False))
+                for (body, h, whole) in bodies:
+                    for n in body.all_nodes():
+                        if n.get('k') == 'call' and n.get('u') == u:
+                            sites += 1
+                            if not (whole or h(n['id'])):
+                                ok = False
+            if sites == 0 or not ok:
+                locked.discard(u)
+                changed = True
+    return locked
+
+
+def _queue_method(fb, R, fn, F, cons, prod, assume_locked=False, locked_usrs=frozenset()):
     key0 = '%s' % fn.q
     before, lockvars = lockset(fn, {F['mutex']})
     pos = fn.positions()
 
     def held(nid):
+        if assume_locked:
+            return True
         st = before.get(nid)
         if st is None:
             # inline node: use nearest element ancestor
@@ -224,7 +308,7 @@ def _queue_method(fb, R, fn, F, cons, prod):
         if not touches:
             continue
         w = wait_lams.get(id(g))
-        ok = False
+        ok = assume_locked
         if w is not None:
             c, lockd = w
             st = before.get(c['id'], frozenset())
@@ -251,6 +335,8 @@ def _queue_method(fb, R, fn, F, cons, prod):
                 allowed = True
         if not allowed and g_is_wait_lambda_ctor(fn, n):
             allowed = True
+        if not allowed and locked_usrs and n.get('u') in locked_usrs:
+            allowed = True  # private helper of the monitor that runs under the caller's lock (checked itself)
         R.check(allowed, 'Q8-no-callout-under-lock', '%s#%s' % (key0, q), fn.loc(n['id']),
                 'call to %s while %s is held in %s (only queue/condvar/flag/element-move operations are allowed under the monitor lock)'
                 % (q, F['mutex'], fn.q))
@@ -258,6 +344,39 @@ def _queue_method(fb, R, fn, F, cons, prod):
 
 def g_is_wait_lambda_ctor(fn, n):
     return n.get('k') == 'construct' and '(lambda)' in n.get('q', '')
+
+
+def _is_size_read(fn, nid, F):
+    """queue.size() on the std::queue member, or the class's own size() accessor"""
+    x = fn.sn(nid)
+    if x is None or x.get('k') != 'call':
+        return False
+    if x.get('q') == 'std::queue::size' and _recv_field(fn, x) == F['queue']:
+        return True
+    return x.get('q') == Q + '::size' and (fn.sn(x.get('recv')) or {}).get('k') == 'this'
+
+
+def _bounded_wait_loop(fb, fn, F, prod):
+    waits = [(c, timed) for (c, cv, timed, lockd, g, pred) in _wait_sites(fb, fn, F) if cv == prod]
+    for (c, timed) in waits:
+        inloop = [l for l in fn.loops if fn.in_range(c['id'], l['b'], l['e'])]
+        gs = guards_of(fn, c['id'])
+        maxg = any(sense and (fn.sn(cn) or {}).get('k') == 'member' and fn.sn(cn)['name'] == F['max'] for (cn, sense, _b) in gs)
+        loopcond = False
+        for (cn, sense, _b) in gs:
+            x = fn.sn(cn)
+            if x is None or x.get('k') != 'binop' or x['op'] not in ('>=', '>', '<', '<='):
+                continue
+            l_size, r_size = _is_size_read(fn, x['lhs'], F), _is_size_read(fn, x['rhs'], F)
+            l_max = (fn.sn(x['lhs']) or {}).get('k') == 'member' and (fn.sn(x['lhs']) or {}).get('name') == F['max']
+            r_max = (fn.sn(x['rhs']) or {}).get('k') == 'member' and (fn.sn(x['rhs']) or {}).get('name') == F['max']
+            full_when_true = (l_size and r_max and x['op'] in ('>=', '>')) or (l_max and r_size and x['op'] in ('<=', '<'))
+            full_when_false = (l_size and r_max and x['op'] in ('<', '<=')) or (l_max and r_size and x['op'] in ('>', '>='))
+            if (full_when_true and sense) or (full_when_false and not sense):
+                loopcond = True
+        if timed and inloop and maxg and loopcond:
+            return True
+    return False
 
 
 def _queue_shapes(fb, R, rec, fns, F, cons, prod):
@@ -344,8 +463,17 @@ def _queue_shapes(fb, R, rec, fns, F, cons, prod):
             ncw += 1
             ok = False
             if g is not None and pred is not None:
-                ds = _disjuncts(g, pred)
-                ok = any(_reads_flag_negated(g, d, F) for d in ds) and any(_is_not_empty(g, d, F) for d in ds)
+                pf = c.get('_predfn') or g
+                ds = _disjuncts(pf, pred)
+                ok = any(_reads_flag_negated(pf, d, F) for d in ds) and any(_is_not_empty(pf, d, F) for d in ds)
+            elif g is None and not timed and len(c.get('args', [])) == 1:
+                # bare wait(lock): equivalent to a predicate wait iff it sits in a loop that re-tests `in_use && queue.empty()`
+                inloop = [l for l in fn.loops if fn.in_range(c['id'], l['b'], l['e'])]
+                gs = guards_of(fn, c['id'])
+                has_flag = any(sense and _reads_flag(fn, cn, F) for (cn, sense, _b) in gs)
+                has_empty = any(sense and (fn.sn(cn) or {}).get('q') == 'std::queue::empty' and _recv_field(fn, fn.sn(cn)) == F['queue']
+                                for (cn, sense, _b) in gs)
+                ok = bool(inloop) and has_flag and has_empty
             R.check(ok, 'Q4-consumer-predicate', '%s#wait' % fn.q, fn.loc(c['id']),
                     'consumer wait in %s: must be a predicate wait whose predicate is a disjunction containing !%s and !%s.empty() '
                     '(a bare wait() is not re-checked after a wake-up: another consumer can take the element first)' % (fn.q, F['flag'], F['queue']))
@@ -386,22 +514,10 @@ def _queue_shapes(fb, R, rec, fns, F, cons, prod):
         for i in ins:
             w2 = path_search(fn, i['id'], lambda e: e in ids, lambda e: False)
             R.check(w2 is None, 'Q7-push-inserts', '%s#once' % fn.q, fn.loc(i['id']), 'push(): an element can be inserted twice on one path')
-        # bounded loop: a wait_for on the producers' variable inside a loop whose condition reads size()/queue.size() and max
-        waits = [(c, timed) for (c, cv, timed, lockd, g, pred) in _wait_sites(fb, fn, F) if cv == prod]
-        ok = False
-        for (c, timed) in waits:
-            inloop = [l for l in fn.loops if fn.in_range(c['id'], l['b'], l['e'])]
-            gs = guards_of(fn, c['id'])
-            maxg = any(sense and (fn.sn(cn) or {}).get('k') == 'member' and fn.sn(cn)['name'] == F['max'] for (cn, sense, _b) in gs)
-            loopcond = False
-            for (cn, sense, _b) in gs:
-                x = fn.sn(cn)
-                if sense and x is not None and x.get('k') == 'binop' and x['op'] in ('>=', '>', '<', '<='):
-                    txt = fn.expr(cn)
-                    if 'size()' in txt and F['max'] in txt:
-                        loopcond = True
-            if timed and inloop and maxg and loopcond:
-                ok = True
+        # bounded loop: a timed wait on the producers' variable inside a loop that re-tests the queue size against max
+        ok = _bounded_wait_loop(fb, fn, F, prod)
+        if not ok and getattr(fn, 'base', None) is not None:
+            ok = _bounded_wait_loop(fb, fn.base, F, prod)  # the body as written (before helper inlining)
         R.check(ok, 'Q7-bounded-wait-loop', '%s#full-loop' % fn.q, fn.site,
                 'push(): the full-queue wait must be a timed wait inside a loop that re-tests size() against %s, guarded by %s != 0'
                 % (F['max'], F['max']))
